@@ -6,6 +6,7 @@ package upstream
 import (
 	"bytes"
 	"fmt"
+	"os"
 	"testing"
 	"time"
 
@@ -22,6 +23,16 @@ var (
 	c16Q   = []string{"A", "TXT", "A+OPT", "AAAA-mixedcase"}
 )
 
+// c16Prop: the property this harness reports for (the same exploration is a part of C05 and C06, see fail()).
+var c16Prop = func() string {
+	if p := os.Getenv("VERIF_PROP"); p == "C05" || p == "C06" {
+		return p
+	}
+	return "C16"
+}()
+
+var c16Shared = map[string]bool{"panic": true, "nil-nil": true, "id-not-restored": true, "reply-not-sent-by-server": true, "ownership": true}
+
 func c16Scenario(c *choice.Ctx, rep *report.R) {
 	own := env.InstallOwn(0xA5, vRace)
 	defer env.UninstallOwn()
@@ -37,7 +48,15 @@ func c16Scenario(c *choice.Ctx, rep *report.R) {
 	second := c.Choose(2, "second-exchange") // run the same thing twice: the second exchange reuses pooled connections
 	desc := fmt.Sprintf("query=%s udp=%s tcp=%s second=%d", c16Q[qi], c16UDP[ui], c16TCP[ti], second)
 	fail := func(sig, msg string) {
-		rep.Violate("C16:"+sig, msg+"\n  "+desc, map[string]any{"Choices": c.Choices()})
+		if c16Prop != "C16" {
+			// run as a part of C05 / C06: only what those properties state about the fallback path
+			// (a returned message is a reply the server sent to this exchange, caller's id restored)
+			if !c16Shared[sig] {
+				return
+			}
+			sig = "udp-fallback:" + sig
+		}
+		rep.Violate(c16Prop+":"+sig, msg+"\n  "+desc, map[string]any{"Choices": c.Choices()})
 	}
 	var q *refdns.Msg
 	switch c16Q[qi] {
@@ -172,6 +191,19 @@ func c16Scenario(c *choice.Ctx, rep *report.R) {
 		if cl.resp != nil && cl.resp.ID != q.ID {
 			fail("id-not-restored", fmt.Sprintf("returned id %#x, caller id %#x", cl.resp.ID, q.ID))
 		}
+		if cl.resp != nil {
+			sent := false
+			for _, r := range []*refdns.Msg{udpReply, tcpReply} {
+				if r != nil {
+					x := *r
+					x.ID = q.ID
+					sent = sent || x.Canon() == cl.resp.Canon()
+				}
+			}
+			if !sent {
+				fail("reply-not-sent-by-server", fmt.Sprintf("the caller got a message that is neither the server's UDP nor its TCP reply to this exchange: %s", cl))
+			}
+		}
 		switch {
 		case tc:
 			// outcome of the TCP exchange, never the truncated UDP message
@@ -227,7 +259,7 @@ func c16Scenario(c *choice.Ctx, rep *report.R) {
 }
 
 func TestVerifC16(t *testing.T) {
-	rep := report.New("C16 UDP truncation fallback")
+	rep := report.New(c16Prop + " UDP truncation fallback")
 	defer rep.Write()
 	rep.Rule = fmt.Sprintf("E3: the object NewUpstream builds for udp:// (udpWithFallback{PipelineTransport(udp), ReuseConnTransport(tcp)}) over scripted dialers; full product query %v x UDP reply %v x TCP leg %v x {one exchange, two exchanges (second reuses pooled connections)}; "+
 		"oracle: TC => exactly one TCP query byte-identical to the caller's, caller gets the TCP outcome and never the truncated UDP message; no TC => UDP message returned as received (id restored) and zero TCP dials/queries; return by deadline", c16Q, c16UDP, c16TCP)
